@@ -207,9 +207,25 @@ func (r *Reader) decodeG3ScanLine1D() {
 
 // decodeG3ScanLine2D decodes a Group 3 2D scanline (K > 0).
 func (r *Reader) decodeG3ScanLine2D() {
+	numEOL := 0
 	for r.err == nil && r.peekBits(11) == 0 {
 		r.consumeBits(11)
 		r.waitForOne() // allow for fill bits
+
+		// The return-to-control sequence which ends the data consists of
+		// six EOL codes, each followed by the tag bit 1 and then directly
+		// by the next EOL code.  (No run-length code starts with eleven
+		// zero bits, so a tag bit followed by these is not a coded line.)
+		numEOL++
+		if !r.IgnoreEndOfBlock {
+			if numEOL >= 6 {
+				r.err = io.EOF
+				return
+			}
+			if r.peekBits(12) == 1<<11 {
+				r.consumeBits(1)
+			}
+		}
 	}
 
 	tp := r.readBits(1)
